@@ -47,6 +47,14 @@ NOTES = {
  'C08-7': 'first caught only through the tie: templates comparing a literal with a LITERAL (no column on either side), alone and under and / or / not / in, added',
  'C10-7': 'first caught only through the tie: digit runs beyond CPython\'s int <-> str conversion limit (4299 / 4301 / 5000 digits) as integers, decimals, exponents, list elements and arguments added',
  'C18-7': 'first caught only through the tie: Spec.typeOf gained the temporal arithmetic rows (date sub date and datetime sub datetime are durations; date / datetime add / sub duration; duration add / sub duration; duration mul / div number) and c18 generates arithmetic over every pair of representative terms of every kind',
+ 'C14-8': 'first missed: alias keys whose first segment carries a namespace (geo.length, author.info, author.info/name, x.y.z) added to the maps, with filters that use them as fields, path roots, owners, arguments and lambda variables',
+ 'C10-8': 'first missed: the harness had raised the interpreter recursion limit for its own encoder, which hid RecursionError in the library; long inputs are now parsed under the default limit, and long paths that END in a lambda / sit inside one / are arguments were added',
+ 'C15-7': 'first missed: every comparison was on de-duplicated ids; base queries that select a NON-UNIQUE column (select(P.s), query(P.s), values_list) are now compared as multisets, on a database with at most one child per parent where navigating through a collection has the meaning of any()',
+ 'C03-8': 'first missed: filters of one shape that differ only in a literal inside a function of literals (tolower(\'ABC\') / tolower(\'AB\') ...) are now applied one after the other on the same engine',
+ 'C12-9': 'first missed: null as a built-in\'s argument was outside the strict typed grammar, so contains(s1, null) never reached the ORM backends; Spec.TypesStrict matches null against every primitive parameter, and the finite node-kind matrix is no longer sub-sampled in the quick tier',
+ 'C08-8': 'first missed: templates that repeat one call (with the literal) inside one filter - indexof(s1, {s}) ge 0 and indexof(s1, {s}) lt 5 ... - added',
+ 'C19-2': 'first missed: string / geography literals whose CONTENT holds whitespace runs, and re-layouts that use one whitespace kind everywhere (line feeds only, CR LF only, tabs only) added',
+ 'C06-8': 'first caught only through the tie: identifiers that differ only in letter case are now judged one after the other in one process (Title / title / TITLE, Sales.Region / sales.region)',
  'C20-4': 'first missed: accumulation histories (40-120 repetitions of one input, nine kinds that leave a parenthesis open) and extreme single inputs added',
 }
 
@@ -57,12 +65,12 @@ def main():
     n = len(res); caught = sum(1 for rc, v in res.values() if rc == '1'); inp = sum(1 for rc, v in res.values() if rc == '1' and 'no-failing' not in v)
     out = ["### 0.5 Seeded changes and which checks catch them", "",
     "Every seeded change below compiles, leaves the pinned suite at 648 passed / 10 xfailed / 4 errors, and was confirmed in a scratch worktree (its own `demo.py` passes on HEAD and fails with the patch;",
-    "`harness/confirm_seed.sh`). They were written in seven rounds by fresh sub-agents that saw only the property text, a scratch worktree of /repo and (from round 2 on) one-line summaries of the",
+    "`harness/confirm_seed.sh`). They were written in eight rounds by fresh sub-agents that saw only the property text, a scratch worktree of /repo and (from round 2 on) one-line summaries of the",
     "earlier seeds for the same property so as to differ in mechanism - nothing from /verif. `harness/seed_matrix.sh` applies each in an isolated scratch worktree, runs the quick check of its",
     f"property in a scratch copy of /verif and writes `seeded/RESULTS.tsv`: {caught} of {n} are reported, {inp} with a failing input. Where a change was first missed (or caught only through a broken",
     "tie), the generator or the judge was strengthened (last column, regenerated by `harness/mkseedtable.py`) - the properties and the pass criteria were not touched. First-time detection per round",
     "(own check, before any strengthening): rounds 1-2 (47 seeds): the first misses are the ones marked in the last column (C03-3, C08-3, C12-2, C12-3, C12-4); round 3 (11 seeds): 7 with a failing input,",
-    "1 through the tie only, 3 missed; round 4 (20 seeds): 8 with a failing input, 3 through the tie only, 9 missed; round 5 (20 seeds): 10 with a failing input, 2 through the tie only, 7 missed, 1 crashed the translator; round 6 (20 seeds): 11 with a failing input, 3 through the tie only, 6 missed; round 7 (20 seeds): 13 with a failing input, 4 through the tie only, 3 missed - rounds 3 to 7 were asked to avoid every mechanism used before, and each miss named a",
+    "1 through the tie only, 3 missed; round 4 (20 seeds): 8 with a failing input, 3 through the tie only, 9 missed; round 5 (20 seeds): 10 with a failing input, 2 through the tie only, 7 missed, 1 crashed the translator; round 6 (20 seeds): 11 with a failing input, 3 through the tie only, 6 missed; round 7 (20 seeds): 13 with a failing input, 4 through the tie only, 3 missed; round 8 (20 seeds): 12 with a failing input, 1 through the tie only, 7 missed - rounds 3 to 8 were asked to avoid every mechanism used before, and each miss named a",
     "blind spot of a GENERATOR or of a judge's scope (literal spellings, type-confusable contents, sequences on one instance, accumulation, an over-broad refusal rule, a schema feature), never of a theorem.", "",
     "| seed | file(s) | what it changes | caught by | note |", "|---|---|---|---|---|"]
     for d in sorted(glob.glob('/verif/seeded/*/')):
